@@ -140,7 +140,7 @@ def jobs_for(tier):
                 **NL_ONLY)
     J = []
     # ---- case generators first (the replay waits for them) ----
-    seps = dict(SepPer=1 if q else 3, MaxSepLen=2 if q else 3)
+    seps = dict(SepPer=1 if q else 2, MaxSepLen=2 if q else 3)
     tab = dict(MaxBatch=1, MaxCalls=30, PrintAt=60, MaxLen=N,
                Ns='{1, 2, %d}' % (N + 1), **seps)
     for wname, wins in (('9', '{9}'), ('2', '{2}' if q else '{1, 2}')):
